@@ -147,6 +147,7 @@ type SpecDB struct {
 	Ghosts    map[string][]*GhostField // type key -> ghost fields
 	Valids    map[string][]*ValidSpec
 	Opaque    map[string]bool
+	Guarded   map[string]string // "TypeKey.field" -> lock field of the same struct
 	NoEffect  []string
 	Delegates map[string]string
 	Globals   []*GlobalInv
@@ -182,6 +183,12 @@ func (db *SpecDB) Add(sf *SpecFile) error {
 	}
 	for _, v := range sf.Valids {
 		db.Valids[v.Type] = append(db.Valids[v.Type], v)
+	}
+	for _, g := range sf.Guarded {
+		if db.Guarded == nil {
+			db.Guarded = map[string]string{}
+		}
+		db.Guarded[g.Type+"."+g.Field] = g.Lock
 	}
 	for _, o := range sf.Opaques {
 		db.Opaque[qualifyType(o, sf)] = true
